@@ -6,6 +6,7 @@
   Spec:  `Nervus.Spec.Order` (total preorder, sorted, stable), `Nervus.Spec.Findings` (trigger predicates).
 -/
 import Nervus.Proofs.KeyCompare
+import Nervus.Proofs.TopK
 import Nervus.Spec.CypherValue
 set_option exponentiation.threshold 4096
 namespace Nervus.Props.C20
@@ -111,6 +112,35 @@ example : orderCompare E0 (.int 9007199254740992) (.float 0x4340000000000000) = 
     orderCompare E0 (.int 9007199254740992) (.int 9007199254740993) = .lt := by decide
 example : (orderBy E0 [([(.int 2, .asc)], "b"), ([(.int 1, .asc)], "a"), ([(.float 0x4000000000000000, .asc)], "c")]).map (·.2)
     = ["a", "b", "c"] := by decide
+
+/-! ### SKIP/LIMIT over ORDER BY returns the slice of the FULL sort, for every input size -/
+
+/-- the source has the shape the model covers: `execute_order_by` receives no row bound and sorts its whole
+    input, Skip/Limit are plain `skip`/`take` over the unrestricted input (regenerated table `OrderBy`; a top-k
+    rewrite flips the flag or breaks the recogniser, and this theorem with it) -/
+theorem composition_is_modelled : orderByBuffersAll = true := by decide
+
+/-- **top-k pruning is sound iff it uses the full comparison**: under `ORDER BY … SKIP s LIMIT l` a row `r` may be
+    dropped from the input once `s + l` rows that arrived before it are not placed after it by the FULL key
+    vector (ties resolved by arrival order, i.e. the stable order): the slice is unchanged — for any input size,
+    any number of keys and directions, any comparator that is a total preorder on the rows. -/
+theorem topk_sound {α : Type} (cmp : α → α → Ordering) (P : α → Prop) (h : CmpLawsOn cmp P)
+    (pre post : List α) (r : α) (s l : Nat) (hP : ∀ x ∈ pre ++ r :: post, P x)
+    (hk : s + l ≤ cntLe cmp r pre) :
+    limit l (skip s (isort cmp (pre ++ r :: post))) = limit l (skip s (isort cmp (pre ++ post))) :=
+  topk_drop_sound_slice cmp h pre post r s l hP hk
+
+/-- **pruning on the LEADING key alone is wrong** (the seeded change C20-seed1): with `ORDER BY k1, k2 LIMIT 1`
+    and input (1,5), (2,0), (1,0) the cutoff after the first rows is (1,5); the third row ties with it on `k1`
+    (not strictly `Less`, so the leading-key filter drops it) although the full comparison puts it FIRST
+    (no earlier row precedes it: `cntLe = 0`); dropping it changes the result. -/
+theorem counterexample_leading_key_prune :
+    let k (a b : Int) : List (Value × Dir) := [(.int a, .asc), (.int b, .asc)]
+    let rows : List (Keyed Nat) := [(k 1 5, 0), (k 2 0, 1), (k 1 0, 2)]
+    orderCompare E0 (.int 1) (.int 1) ≠ .lt ∧
+    cntLe (fun a b : Keyed Nat => keyCompare E0 a.1 b.1) (k 1 0, 2) [(k 1 5, 0), (k 2 0, 1)] = 0 ∧
+    (orderBySkipLimit E0 none (some 1) rows).map (·.2) = [2] ∧
+    (orderBySkipLimit E0 none (some 1) [(k 1 5, 0), (k 2 0, 1)]).map (·.2) = [0] := by decide
 
 /-! ### counterexamples to `C20_full` -/
 
